@@ -227,6 +227,8 @@ inductive Via where
   | sub      -- `ret.Sub[0].X++`
   | disp     -- `ret.Disp.W++`
   | ov       -- `ret.TypeOverride.W++` (component getter)
+  | own      -- every field of the returned struct itself is overwritten (`ret.W = …; ret.Disp = nil; ret.Sub = nil; …`)
+  | ownrefs  -- `ret.Disp = &Display{…}; ret.Sub = []SubEl{…}`: the returned struct is pointed at new cells
 deriving Repr, DecidableEq, Inhabited
 
 def bumpX (s : SubEl) : SubEl := { s with x := s.x + 1 }
@@ -239,8 +241,30 @@ def resTD (h : Heap) : ResR → Option TypeDefR
   | .tdP a => some (h.tdAt a)
   | _ => none
 
+/-- what `own` leaves in the returned definition's cell (the values do not matter: nothing else refers to the cell) -/
+def scribbled : TypeDefR := { v := { w := 7, desc := bytesOf "edited", ext := bytesOf "pos", render := bytesOf "x" } }
+
+/-- `*p = f(*p)` on a definition cell as a whole, references included -/
+def Heap.writeTDR (h : Heap) (a : Nat) (f : TypeDefR → TypeDefR) : Heap :=
+  h.modify a (fun c => match c with | .td r => .td (f r) | c => c)
+
+/-- the caller's writes to the struct it was handed.  `return &typeDef` hands out the address of a cell allocated by
+the look-up (`tdP`): the write lands in that cell.  A definition returned by value (`tdV`) and the component copy
+(`comp`, `return &r` of the loop variable) live in the caller's frame: no cell of the heap is written.  `fresh` = the
+cells the caller allocates first (`ownrefs`). -/
+def writeOwn (h : Heap) (res : ResR) (fresh : List Cell) (f : TypeDefR → TypeDefR) : Option Heap :=
+  match res with
+  | .tdP a => some ((h ++ fresh).writeTDR a f)
+  | .tdV _ => some (h ++ fresh)
+  | .comp _ => some (h ++ fresh)
+  | _ => none
+
 /-- the heap after the caller's write; `none` = nothing to write through (nil pointer / empty slice / no definition) -/
 def writeVia (h : Heap) (res : ResR) : Via → Option Heap
+  | .own => writeOwn h res [] (fun _ => scribbled)
+  | .ownrefs =>
+    writeOwn h res [.disp { w := 1, h := 2 }, .subs [{ objType := [114], x := 1 }]]
+      (fun r => { r with dispP := some h.length, subP := some (h.length + 1) })
   | .sub =>
     match resTD h res with
     | some r => match r.subP with
